@@ -50,6 +50,8 @@ def pools(ctx):
         ("d2big", pick(d2big, 8000)),
         ("d3big", pick(d3big, 8000)),
         ("inline", pick(list(docs.d_inline(4)), 30000)),
+        ("edges", pick(list(dict.fromkeys(docs.link_edges() + docs.leaf_edges() + docs.families() + docs.inline_emph(6))), 4000)),
+        ("nesting", pick(list(dict.fromkeys(docs.container_pairs() + docs.corpus_marker_variants() + docs.multi_pairs())), 4000)),
     ]
 
 
